@@ -1,5 +1,5 @@
 (* C18 — fleet scale-up never leaks instances, whatever step fails.  Theorems only. *)
-From Esc Require Import SpecAws proofs.AwsProofs.
+From Esc Require Import SpecAws Scan proofs.AwsProofs proofs.ScanState.
 From Coq Require Import Permutation.
 
 (* For every acquired id list (any length) and every failure point — readiness deadline, failure of any subset of
@@ -61,3 +61,12 @@ Example c18_ex_2500 :
   map (fun c => match c with ATermInstances ids _ => length ids | _ => 0%nat end) (filter (fun c => match c with ATermInstances _ _ => true | _ => false end) calls)
     = [1000; 1000; 440]%nat.
 Proof. vm_compute. repeat split. Qed.
+
+(* the controller half: whenever the scale-up does not succeed (the provider returned an error, or the process exits at
+   the third clean-up) the controller's memory keeps the lock it had — no cool-down is taken for capacity that did not
+   arrive — and the reported number of added nodes is 0 *)
+Theorem c18_error_no_lock : forall e o mx dry st a tainted want,
+  let r := scale_up e o mx dry st a tainted want in
+  up_out r <> OutOk -> g_lock (up_state r) = g_lock st /\ up_ret r = 0.
+Proof. exact scale_up_error_no_lock. Qed.
+Print Assumptions c18_error_no_lock.
